@@ -44,8 +44,14 @@ class State:
         ex.assume(self.bs.t == tot)
         ex.assume(z3.Implies(self.sc.t == -1, z3.And(self.pl.t == 0, self.bs.t == 0, *[z3.Not(o) for o in self.occ])))
         self.frames = SymMap('frames', [[i, GV.make([(self.occ[i], self.chunks[i]), (z3.Not(self.occ[i]), ABSENT)])] for i in range(NSLOTS)])
-        self.rec = Obj(r.cls('decoder', 'fast_pgn_metadata'), {'frames': self.frames, 'payload_length': self.pl, 'bytes_stored': self.bs,
-                                                                'sequence_counter': self.sc})
+        rcls = r.cls('decoder', 'fast_pgn_metadata')
+        attrs = {'frames': self.frames, 'payload_length': self.pl, 'sequence_counter': self.sc}
+        # bytes_stored is redundant state (= sum of the stored chunk lengths): the abstract view derives it from the slots; the
+        # concrete attribute is part of the record only if the class keeps one (a derived @property is equally acceptable)
+        bsm = rcls.methods.get('bytes_stored') if rcls is not None else None
+        if not (bsm is not None and bsm.is_property):
+            attrs['bytes_stored'] = self.bs
+        self.rec = Obj(rcls, attrs)
         self.key = stream_key(self.pgn, self.src, self.dest)
         self.data = SymMap('data', [[self.key, GV.make([(self.absent.t, ABSENT), (z3.Not(self.absent.t), self.rec)])]])
         self.decoder = Obj(r.cls('decoder', 'NMEA2000Decoder'), {'data': self.data})
@@ -74,6 +80,7 @@ class State:
 def view_of_entry(v, fresh_slots):
     """(payload_length, sequence_counter, bytes_stored, slots) of a data-map entry value; ABSENT counts as a fresh record."""
     pls, scs, bss = [], [], []
+    derived = False
     slot_alts = [[] for _ in range(NSLOTS)]
     for g, x in alts(v):
         if x is ABSENT:
@@ -81,14 +88,19 @@ def view_of_entry(v, fresh_slots):
             for i in range(NSLOTS):
                 slot_alts[i].append((g, ABSENT))
             continue
-        pls.append((g, x.attrs['payload_length'])); scs.append((g, x.attrs['sequence_counter'])); bss.append((g, x.attrs['bytes_stored']))
+        pls.append((g, x.attrs['payload_length'])); scs.append((g, x.attrs['sequence_counter']))
+        if 'bytes_stored' in x.attrs:
+            bss.append((g, x.attrs['bytes_stored']))
+        else:
+            derived = True
         fr = x.attrs['frames']
         ent = {k: val for k, val in fr.entries} if isinstance(fr, SymMap) else dict(fr)
         for i in range(NSLOTS):
             val = ent.get(i, ABSENT)
             for g2, y in alts(val):
                 slot_alts[i].append((z3.And(g, g2), y))
-    return GV.make(pls), GV.make(scs), GV.make(bss), [GV.make(a) for a in slot_alts]
+    slots = [GV.make(a) for a in slot_alts]
+    return GV.make(pls), GV.make(scs), (slots_len(slots) if derived else GV.make(bss)), slots
 
 
 def slots_len(slots):
@@ -137,8 +149,11 @@ class TransitionTask(Task):
 
         def cdf(ex, f, args, kwargs):
             ex.ghost.setdefault('cdf_calls', []).append(list(args))
-            if ex.choose(2, 'cdf-raises') == 0:
+            k = ex.choose(3, 'cdf-outcome')
+            if k == 0:
                 raise PyRaise(make_exc('ValueError', 'field decoder raised'))
+            if k == 1:
+                return None           # the message is filtered out (by id, manufacturer, claim filter) or has no sub-decoder
             return Opaque('decode-result')
 
         def run(ex):
@@ -243,7 +258,7 @@ class TransitionTask(Task):
             dct['function'] = FUNC
             if res.status == 'refuted':
                 dct['reason'] = ob.meta.get('note', '')
-                if self.prop in ('C11', 'C16'):
+                if self.prop in ('C11', 'C16', 'C10'):
                     from contracts.decoder_scenarios import replay_for as rf
                     dct['replay'] = rf(self.prop, ob.meta.get('scenario'), res.model or {})
                     if not dct['replay'].get('confirmed'):
